@@ -47,12 +47,12 @@ def is_default(uri: str, ns_map: dict) -> bool:
 
 
 def clean_prefixes(ns_map: dict) -> dict:
-    """Remove default namespace if it's also assigned to a prefix."""
+    """Remove invalid prefixes and the default namespace if it's also prefixed."""
     result = {}
     for prefix, ns in ns_map.items():
         if ns:
             prefix = prefix or None
-            if prefix not in result:
+            if prefix not in result and is_valid_prefix(prefix, ns):
                 result[prefix] = ns
 
     default_ns = result.get(None)
@@ -60,6 +60,22 @@ def clean_prefixes(ns_map: dict) -> dict:
         result.pop(None)
 
     return result
+
+
+def is_valid_prefix(prefix: str | None, uri: str) -> bool:
+    """Check the prefix can be declared for the uri in a xml document.
+
+    The prefix must be a valid ncname, the xml prefix and namespace can
+    only be bound to each other and the xmlns prefix and namespace can't
+    be declared at all.
+    """
+    if prefix == "xmlns" or uri == "http://www.w3.org/2000/xmlns/":
+        return False
+
+    if (prefix == Namespace.XML.prefix) != (uri == Namespace.XML.uri):
+        return False
+
+    return prefix is None or is_ncname(prefix)
 
 
 def clean_uri(namespace: str) -> str:
